@@ -352,3 +352,22 @@ Proof.
   - eapply H; [apply preach_init | exact E].
   - vm_compute in E. inversion E; subst. vm_compute. split; reflexivity.
 Qed.
+
+(* Non-vacuity of the translation-tie theorems: reachable states of the repaired recoverer sit at the program counters
+   their hypotheses name - Start before and after the swap, the watcher with a recovered panic in `stopped`, the
+   re-check after the cool-down, Close at its read of running. *)
+Example C18_gen_nonvacuous :
+  exists s1 s2 s3 s4 s5,
+    run (cfg_new KFresh) init [EStart] = Some s1 /\ s_t s1 = TNew /\
+    run (cfg_new KFresh) init [EStart; TBegin] = Some s2 /\ s_t s2 = TChk /\
+    run (cfg_new KFresh) init (C18_ex_panic ++ [GPut]) = Some s3 /\ s_t s3 = TSel /\ s_buf s3 = Some MStopped /\
+    run (cfg_new KFresh) init (C18_ex_panic ++ [GPut; TRecv; TTimer]) = Some s4 /\ s_t s4 = TReChk /\
+    run (cfg_new KFresh) init [EStart; TBegin; TCheck; TLaunch; ECall; CMarkL] = Some s5 /\ s_c s5 = CRead.
+Proof.
+  do 5 eexists.
+  split; [vm_compute; reflexivity|]. split; [vm_compute; reflexivity|].
+  split; [vm_compute; reflexivity|]. split; [vm_compute; reflexivity|].
+  split; [vm_compute; reflexivity|]. split; [vm_compute; reflexivity|]. split; [vm_compute; reflexivity|].
+  split; [vm_compute; reflexivity|]. split; [vm_compute; reflexivity|].
+  split; vm_compute; reflexivity.
+Qed.
